@@ -11,7 +11,7 @@
 //    7 k cell*k            runShiftsOnCells      8 k cell*k  runReorderingOnCells   (cells: distinct optimised cells)
 // result: "NOLEG" | "INIT v ;placement / <op result> / ..."; op result for 0,1,2:
 //    "B found ; ncand (feasible [c x y]*)* ; value ;placement ; check"   (candidate positions as positionsOnSwap/positionOnInsert give them BEFORE the call)
-//    for the passes: "P value ;placement ; check"; for runShiftsOnCells: "S <row structure before> | k (cell newx)*k ; value ;placement ; check"
+//    for the passes: "P value ;placement ; check" (runReorderingOnCells: "P xvalue yvalue [nleaves nregions] ; value ;placement ; check"); for runShiftsOnCells: "S <row structure before> | k (cell newx)*k ; value ;placement ; check"
 // placement = x y orient of every cell after DetailedPlacer::exportPlacement into a copy of the circuit.
 // After an op that ran the shift pass (5, 7), when /repo carries the hook coloquinte_verif_shift_hook, one extra segment
 // " / L <ints>" per call of runShiftsOnCells: the state BEFORE the call, the min-cost-flow problem the C++ built, lemon's
@@ -62,6 +62,10 @@ extern "C" void coloquinte_verif_shift_hook(const void *placer, int nbCells, con
   }
   lpSnap();
 }
+
+// record of RowReordering::run (filled by the hook coloquinte_verif_reorder_hook when /repo carries it; -1 otherwise)
+static long long g_reLeaves = -1; static int g_reRegions = -1;
+extern "C" void coloquinte_verif_reorder_hook(int nbRegions, int, long long nbLeaves, int, long long) { g_reLeaves = nbLeaves; g_reRegions = nbRegions; }
 
 static std::string chk(DetailedPlacer &pl) { try { pl.check(); return "ok"; } catch (std::exception &e) { return std::string("CHECKFAIL ") + e.what(); } }
 
@@ -199,7 +203,12 @@ int main(int argc, char **argv) {
               std::string before = rowsDump(dp);
               pl.runShiftsOnCells(cells);
               printf(" / S %s | %zu", before.c_str(), cells.size()); for (int cc : cells) printf(" %d %d", cc, dp.cellX(cc));
-            } else { pl.runReorderingOnCells(cells); printf(" / P"); }
+            } else {
+              // "P xvalue yvalue [nleaves nregions]": both model values; the leaf / region counts when /repo has the reordering hook
+              g_reLeaves = -1; pl.runReorderingOnCells(cells);
+              printf(" / P %lld %lld", (long long)pl.xtopo_.value(), (long long)pl.ytopo_.value());
+              if (g_reLeaves >= 0) printf(" %lld %d", g_reLeaves, g_reRegions);
+            }
           }
           printf(" ; %lld ;%s ; %s", pl.value(), statePl(pl, c).c_str(), chk(pl).c_str());
           for (const std::string &rec : g_lp) printf(" / L %s", rec.c_str());
